@@ -53,10 +53,10 @@ where
     }
     for d in 1..=depth {
         let mut next: Vec<(S, Value, Vec<O>)> = vec![];
+        let mut level_transitions = 0u64;
         for (s, init_d, hist) in &frontier {
             for op in ops(s) {
                 let mut succ: Option<S> = None;
-                let is_leaf = d == depth;
                 ctx.case(
                     || {
                         let mut h: Vec<Value> = hist.iter().map(&op_desc).collect();
@@ -65,16 +65,11 @@ where
                     },
                     |cc| {
                         cc.add_transitions(1);
-                        if is_leaf {
-                            cc.add_traces(1);
-                        }
                         succ = step(s, &op, cc);
                     },
                 );
                 stats.transitions += 1;
-                if is_leaf {
-                    stats.leaf_transitions += 1;
-                }
+                level_transitions += 1;
                 if ctx.res.capped {
                     return stats;
                 }
@@ -93,11 +88,19 @@ where
             }
         }
         stats.max_depth_reached = d;
+        stats.leaf_transitions = level_transitions;
         frontier = next;
         if frontier.is_empty() {
+            // no new state at this depth: the reachable state space (under this operation
+            // alphabet) is closed, deeper histories only revisit explored states
+            if d < depth {
+                *ctx.res.extra.entry("bfs_fixpoint_reached_before_depth_bound".into()).or_insert(0) += 1;
+            }
             break;
         }
     }
     ctx.res.states += stats.states;
+    // complete histories = the transitions of the last level that was executed
+    ctx.res.traces += stats.leaf_transitions;
     stats
 }
